@@ -1,0 +1,48 @@
+//go:build verif
+
+package parser
+
+import (
+	gotoken "go/token"
+
+	"github.com/dcaiafa/loxlex/simplelexer"
+)
+
+// VerifTokens exposes, for the verification harness in /verif, the token
+// types produced for a .lox text by the raw generated lexer (simplelexer over
+// _LexerStateMachine) and by the line-continuation wrapper in lexer.go that
+// the parser actually reads from. It is compiled only with the "verif" tag.
+func VerifTokens(data []byte) (raw []int, wrapped []int) {
+	fset := gotoken.NewFileSet()
+	limit := 4*len(data) + 16
+
+	rawLex := simplelexer.New(simplelexer.Config{
+		StateMachine: new(_LexerStateMachine),
+		File:         fset.AddFile("raw", -1, len(data)),
+		Input:        data,
+	})
+	for i := 0; i < limit; i++ {
+		_, typ := rawLex.ReadToken()
+		raw = append(raw, typ)
+		if typ == EOF {
+			break
+		}
+	}
+
+	wrapLex := newLexer(simplelexer.Config{
+		StateMachine: new(_LexerStateMachine),
+		File:         fset.AddFile("wrapped", -1, len(data)),
+		Input:        data,
+	})
+	for i := 0; i < limit; i++ {
+		_, typ := wrapLex.ReadToken()
+		wrapped = append(wrapped, typ)
+		if typ == EOF {
+			break
+		}
+	}
+	return raw, wrapped
+}
+
+// VerifTokenName returns the name of a token type of lox's own grammar.
+func VerifTokenName(t int) string { return _TokenToString(t) }
